@@ -4,9 +4,11 @@
 package main
 
 import (
+	"crypto/tls"
 	"encoding/json"
 	"fmt"
 	"io/ioutil"
+	"net"
 	"net/http"
 	"net/url"
 	"os"
@@ -216,6 +218,27 @@ func main() {
 						continue
 					}
 					log(map[string]interface{}{"ev": "req_start", "id": id})
+					if i%5 == 4 {
+						// a TLS handshake that selects its certificate by server name, while TLS rules / certificates reload
+						tc, err := tls.DialWithDialer(&net.Dialer{Timeout: 5 * time.Second}, "tcp", s.TLSAddr,
+							&tls.Config{InsecureSkipVerify: true, NextProtos: []string{"http/1.1"},
+								ServerName: []string{"example.org", "www.example.org", "probe.example"}[id%3]})
+						ok := false
+						if err == nil {
+							h := e2e.NewH1(tc)
+							h.Send("GET /r HTTP/1.1\r\nHost: probe.example\r\nConnection: close\r\n\r\n")
+							if r, e := h.ReadResponse("GET", 20*time.Second); e == nil && r != nil && r.Status == 200 && string(r.Body) == "c0" {
+								ok = true
+							}
+							h.Close()
+						}
+						if !ok {
+							atomic.AddInt32(&failures, 1)
+						}
+						log(map[string]interface{}{"ev": "tls_end", "id": id, "ok": ok})
+						cli.Close()
+						continue
+					}
 					if i%3 == 2 {
 						// probe of the cluster that balancer-table reloads add and remove: either the old table
 						// (no balancer: BK_NO_BALANCE) or the new one (complete: 200), nothing in between
